@@ -13,10 +13,10 @@ package jit
 //@ spec func levelOf(t OptimizationTier) compiler.OptimizationLevel = ite(t == TierOptimized, compiler.OptBasic, ite(t == TierHighlyOptimized, compiler.OptAggressive, compiler.OptNone))
 //@ func (*JITCompiler).compileWithTier
 //@   modifies nothing
-//@   callpre compiler.NewCompilerWithOptLevel arg0 == levelOf(tier)
+//@   callpremust compiler.NewCompilerWithOptLevel arg0 == levelOf(tier)
 // every compilation runs on a compiler (and optimizer) made for it: no constant, copy or
 // expression fact learnt while compiling another route can leak into this one
-//@   callpre (*compiler.Compiler).CompileRoute fresh(arg0)
+//@   callpremust (*compiler.Compiler).CompileRoute fresh(arg0)
 //@   ensures err == nil ==> bcsrc(result) == route
 
 //@ func (*JITCompiler).getNextTier
